@@ -5,7 +5,7 @@ Import ListNotations.
 Open Scope string_scope.
 
 Definition lib_sites : list (string * string) :=
-  [("any(test,feature=std)", "externcratestd;");
+  [("any(feature=std,test)", "externcratestd;");
    ("all(feature=serialize,not(feature=std))", "compile_error!(features`serialize`cannotbeenabledwhenusing`");
    ("all(feature=serialize,feature=std)", "modtls_serialize;");
    ("feature=serialize", "pubusetls_serialize::*;")].
